@@ -19,6 +19,10 @@ Ltac trig_ring := match goal with
   | H1 : _ * _ = 1 - _ |- _ => first [ring [H1] | field [H1] | (field_simplify_eq; ring [H1])]
   end.
 Ltac solve_entry := first [ field | ring | trig_ring | lazymatch goal with |- ?a = ?a => reflexivity end ].
+Ltac pc_zero := intros; autounfold with gen; ops_R; trig_abs; repeat split;
+  (let H := fresh "H" in intro H;
+   match type of H with ?b < ?a =>
+     let E := fresh "E" in assert (E : a = 0) by solve_entry; rewrite E in H; lra end).
 Ltac law := intros; unfold halves_eq; autounfold with gen; ops_R; cbn [firstn skipn]; trig_abs; list_eq solve_entry.
 
 Lemma law_roundtrip_complex_lin s0r s0i s1r s1i s2r s2i s3r s3i :
